@@ -49,7 +49,7 @@ func lifeTargets(n int) []string {
 
 type numAddr int
 
-func (numAddr) Network() string   { return "mem" }
+func (numAddr) Network() string  { return "mem" }
 func (a numAddr) String() string { return fmt.Sprintf("mem:%d", int(a)) }
 
 type noAuthKey struct{}
@@ -436,7 +436,9 @@ func runLife(t *testing.T, sc *Scenario) (st *stats, err error) {
 		}
 		for i := range sc.Ops {
 			op := &sc.Ops[i]
-			where = func() string { return fmt.Sprintf("step %d of %d: %s %s", i, len(sc.Ops), op.Op+op.Call, short(op.Text, 3000)) }
+			where = func() string {
+				return fmt.Sprintf("step %d of %d: %s %s", i, len(sc.Ops), op.Op+op.Call, short(op.Text, 3000))
+			}
 			if err = closeDue(i); err != nil {
 				return
 			}
@@ -551,7 +553,9 @@ func runLife(t *testing.T, sc *Scenario) (st *stats, err error) {
 			return "walk / MakeSubscribeResponse / client receive of the resulting cache content"
 		}
 		walkAndDecode(l.c, l.srv)
-		where = func() string { return "statistics, UpdateMetadata, UpdateSize, Reset and Remove of every target at the end" }
+		where = func() string {
+			return "statistics, UpdateMetadata, UpdateSize, Reset and Remove of every target at the end"
+		}
 		l.srv.TypeStats()
 		l.srv.TargetStats()
 		l.srv.ClientStats()
